@@ -185,15 +185,23 @@ inductive ResumeOut
   | done (data : Bytes)      -- all bytes are in: hand over to finishUpload
 deriving Repr, Inhabited
 
+/-- the request is refused: `*` with a body, a range whose length differs from the body's, or
+    a range that starts beyond what has been received ("missing content") -/
+def resumeRejects (data : Bytes) (r : ByteRange) (body : Bytes) : Bool :=
+  (r.lo == -1 && body.length != 0) ||
+  (r.lo != -1 && (body.length : Int) != r.hi + 1 - r.lo) ||
+  decide ((data.length : Int) < r.lo)
+
+/-- truncate at `lo` (a re-sent range), then append -/
+def resumeData (data : Bytes) (r : ByteRange) (body : Bytes) : Bytes :=
+  (if r.lo != -1 then data.take r.lo.toNat else data) ++ body
+
 /-- The data bookkeeping of `handleGcsNewObjectResume`. -/
 def resumeStep (data : Bytes) (r : ByteRange) (body : Bytes) : ResumeOut × Bytes :=
-  if (r.lo == -1 && body.length != 0) ||
-     (r.lo != -1 && (body.length : Int) != r.hi + 1 - r.lo) then (.bad, data)
-  else if (data.length : Int) < r.lo then (.bad, data)
-  else
-    let data' := (if r.lo != -1 then data.take r.lo.toNat else data) ++ body
-    if r.sz < 0 || (data'.length : Int) < r.sz then (.more data'.length, data')
-    else (.done data', data')
+  if resumeRejects data r body then (.bad, data)
+  else if r.sz < 0 || ((resumeData data r body).length : Int) < r.sz then
+    (.more (resumeData data r body).length, resumeData data r body)
+  else (.done (resumeData data r body), resumeData data r body)
 
 /-! ### Listing -/
 
